@@ -175,6 +175,40 @@ def contexts(rep, tier):
     if not n: rep.error('C12 contexts: no obligation')
     rep.bounded.append(dict(kind='validators embedded at several positions of a hint (root, container item, member of a nested union, mapping value): captured checker vs meaning, each for all objects', hints=len(T)))
 
+GUARDED = ['AND(IS(nonempty), IS(firstpos))', 'AND(IS(nonempty), NOT(IS(firstpos)))', 'AND(IS(nonempty), OR(IS(firstpos), ISEQ(5)))', 'OR(NOT(IS(nonempty)), IS(firstpos))',
+           'AND(IS(nonempty), NOT(NOT(IS(firstpos))))', "AND(AND(IS(nonempty), ISATTR('__class__', NOT(ISEQ(5)))), NOT(IS(firstpos)))", 'NOT(OR(NOT(IS(nonempty)), IS(firstpos)))']
+def diagnosis(rep):
+    """bounded (NOT counted as proved): "the verdict reported in the violation message": for composite validators whose later operand is only
+    defined behind an earlier one (short-circuit meaning of & | ~), the rejection of an object is REPORTED (a violation with a message) - the
+    describer evaluates the operands with the same short-circuiting as is_valid and the generated code, at every nesting of ~"""
+    from pyvc import shapes
+    from beartype.door import is_bearable, die_if_unbearable
+    from beartype import beartype
+    from beartype.roar import BeartypeDoorHintViolation, BeartypeCallHintParamViolation
+    cases = 0; fails = []
+    for vsrc in GUARDED:
+        try: hint = shapes.ev(f'Annotated[list, {vsrc}]')
+        except Exception as e: rep.error(f'C12 diagnosis: {vsrc}: {e}'); continue
+        ns = dict(H=hint); exec('def f(p0: H): return p0', ns); g = beartype(ns['f'])
+        for osrc in ('[]', '[1]', '[-1]', '[0, 1]', "['a']"):
+            o = eval(osrc); cases += 1
+            try: ok = is_bearable(o, hint)
+            except Exception as e: fails.append((vsrc, osrc, f'is_bearable raised {type(e).__name__}')); continue
+            for label, call, V in (('die_if_unbearable', lambda: die_if_unbearable(o, hint), BeartypeDoorHintViolation), ('parameter', lambda: g(o), BeartypeCallHintParamViolation)):
+                try: call(); got = 'accepted'
+                except V as e: got = 'violation' if str(e) else 'violation without message'
+                except Exception as e: got = f'{type(e).__name__}: {e}'[:80]
+                if got != ('accepted' if ok else 'violation'): fails.append((vsrc, osrc, f'{label}: is_bearable is {ok} but {got}'))
+    groups = {}
+    for f in fails: groups.setdefault(f[2].split(':')[0] + '.' + f[2].split('but ')[-1].split(':')[0].replace(' ', '_')[:30], []).append(f)
+    for sig, items in sorted(groups.items()):
+        f = items[0]
+        rep.add(f'C12.diagnosis.bounded.{sig}', 'refuted', backend='runtime-contract', bounded=True, where=f'{len(items)} cases; e.g. Annotated[list, {f[0]}] on {f[1]}: {f[2]}', solver_output='bounded run-time contract on the real API (not a proof)',
+                replay=dict(kind='C12', reproduced=True, detail=f'{f[0]} on {f[1]}: {f[2]}'),
+                replay_script=f"from pyvc import shapes\nfrom beartype.door import die_if_unbearable\nfrom beartype.roar import BeartypeException\ntry: die_if_unbearable({f[1]}, shapes.ev('Annotated[list, ' + {f[0]!r} + ']')); sys.exit(0)\nexcept BeartypeException: sys.exit(0)\nexcept Exception as e: print('REPRODUCED', type(e).__name__, e); sys.exit(1)\n")
+    rep.bounded.append(dict(kind='violation reports of guarded composite validators (bounded stand-in, NOT counted as proved)', validators=len(GUARDED), cases=cases, failing=len(fails)))
+    if not cases: rep.error('C12 diagnosis: no case')
+
 def main(tier, seed):
     rep = report.Report('C12', tier, seed, 'proof', f'./check C12 --tier {tier}')
     T = palette(tier, seed)
@@ -195,6 +229,8 @@ def main(tier, seed):
         if len(rep.samples) < 5: rep.samples.append(dict(validator=rec['v'], obligations=[f"{o['name']}:{o['status']}" for o in rec['obligations']]))
     try: contexts(rep, tier)
     except Exception: rep.error('C12 contexts: ' + traceback.format_exc()[-1500:])
+    try: diagnosis(rep)
+    except Exception: rep.error('C12 diagnosis: ' + traceback.format_exc()[-1500:])
     files = ['beartype/vale/_core/_valecore.py', 'beartype/vale/_core/_valecorebinary.py', 'beartype/vale/_core/_valecoreunary.py', 'beartype/vale/_is/_valeis.py',
              'beartype/vale/_is/_valeisobj.py', 'beartype/vale/_is/_valeisoper.py', 'beartype/vale/_is/_valeistype.py', 'beartype/vale/_util/_valeutilsnip.py',
              'beartype/_util/cls/utilclstest.py']
